@@ -457,6 +457,18 @@ def tree_universe(v, nleaf=None):
         if (label, fields) not in leaves:
             leaves.append((label, fields))
         if rng.random() < 0.4:
+            # a "type sibling": another leaf type of the same basetype with the same keys (file / movie /
+            # cache next to each other in one state folder), sharing every value but the leaf
+            bt = label.split(v.sep)[0]
+            keyl = [k for k, _ in fields]
+            same = [l for l in leaf_labels if l != label and l.split(v.sep)[0] == bt and [k for k, _ in v.tdict[l]] == keyl]
+            if same:
+                l2 = rng.choice(same)
+                lk, lr = v.tdict[l2][-1]
+                f2 = list(fields[:-1]) + [(lk, v.value((lk, lr), concrete_only=True))]
+                if (l2, f2) not in leaves:
+                    leaves.append((l2, f2))
+        if rng.random() < 0.4:
             # a "depth sibling": a leaf type of the same basetype with another number of levels,
             # sharing every common key value (e.g. .../p/abc and .../p/<node>/abc)
             bt = label.split(v.sep)[0]
